@@ -22,6 +22,6 @@ job('string_set2', 'str.ctor_buffer', 'h_str_ctor_buffer', ['C18'], solver='cadi
 job('string_set2', 'str.set_wide', 'h_str_set_wide', ['C18'], solver='cadical', timeout=900, expect=[r'ST_string_set_wide\.postcondition\.[1-5]'])
 job('string_set2', 'str.to_buffer', 'h_str_to_buffer', ['C18', 'C04'], solver='cadical', timeout=900, expect=[r'ST_string_to_buffer\.postcondition\.[1-7]'])
 PROPS['C18'] = dict(level='proof',
-    explanation='validate-then-commit is proved, not assumed, for the operations between the public API and the proved leaves: string::set(const char_buffer&, v), set(char_buffer&&, v), _set_utf8 (behind the const char* constructor / set / operator=), operator+=(char32_t), operator+=(const string&), operator+(string, char32_t), operator+(char32_t, string): whenever one of them raises unicode_error the target keeps its size, data pointer and an arbitrary byte, the argument (also when passed as an rvalue) keeps its value, the heap-block count is unchanged (temporaries released on the unwinding path, which the translator inserts), and the exception is raised exactly when the validator / encoder reports failure; on success the committed bytes are exactly the validated ones.  string_stream insertion of wchar_t / char16_t / char32_t text (C16 unit): a failed conversion leaves the stream unchanged',
+    explanation='validate-then-commit is proved, not assumed, for the operations between the public API and the proved leaves: string::set(const char_buffer&, v), set(char_buffer&&, v), _set_utf8 (behind the const char* constructor / set / operator=), the constructors from a char_buffer (lvalue and rvalue), set(const char16_t* / const char32_t*, size, v), to_buffer(char_buffer&, utf8, substitute), the 12 pointer-overload conversion wrappers of st_utf_conv.h, operator+=(char32_t), operator+=(const string&), operator+(string, char32_t), operator+(char32_t, string): whenever one of them raises unicode_error the target keeps its size, data pointer and an arbitrary byte, the argument (also when passed as an rvalue) keeps its value, the heap-block count is unchanged (temporaries released on the unwinding path, which the translator inserts), and the exception is raised exactly when the validator / encoder reports failure; on success the committed bytes are exactly the validated ones.  string_stream insertion of wchar_t / char16_t / char32_t text (C16 unit): a failed conversion leaves the stream unchanged',
     trusted_base=['validate_utf8 contract stub (harness/utf_stubs.h; the function itself is proved in the UTF unit, C02)', 'cleanup_utf8_buffer contract stub (returns a fresh well-formed buffer)', 'char_traits copy/move contracts (prelude.h)'],
-    assumptions=['exceptions are modelled as a status flag with destructor calls inserted by the translator at every exit of a scope (DESIGN.md 2.3)', 'not covered: hex_decode / base64_decode allocating wrappers beyond their C15 codec_error contract, ST::format (bad_format is raised before any output object exists), conversion wrappers of st_utf_conv.h (they build a local result that is destroyed on failure)', 'allocation failure is the subject of C19, not injected here'])
+    assumptions=['exceptions are modelled as a status flag with destructor calls inserted by the translator at every exit of a scope (DESIGN.md 2.3)', 'not covered: hex_decode / base64_decode allocating wrappers beyond their C15 codec_error contract, ST::format (bad_format is raised before any output object exists)', 'allocation failure is the subject of C19, not injected here'])
